@@ -119,7 +119,8 @@ def _mutcalls(nid, node, st):
     for c in A.calls(node):
         if isinstance(c.func, ast.Attribute) and c.func.attr in MUTATORS:
             b = base_name(c.func.value)
-            if b:
+            # `operator.add(a, b)` / `np.add(..)`: a function of a module, not a mutator of a local container
+            if b and not (isinstance(c.func.value, ast.Name) and b in ("operator", "np", "numpy", "math", "itertools", "functools")):
                 out.append(Def(nid, b, "mutcall", c, st))
     return out
 
